@@ -165,6 +165,10 @@ impl<'a> Sum<&'a Interval> for Interval {
 
 impl Display for Interval {
     fn fmt(&self, f: &mut Formatter<'_>) -> std::fmt::Result {
+        if self.is_zero() {
+            // (an empty text would be read back as NULL)
+            return write!(f, "0 seconds");
+        }
         let mut space = "";
         let mut write = |val: i32, unit: &str| {
             let res = match val {
